@@ -621,7 +621,9 @@ class GenericDefinition(Unit):
             def items(self):
                 return [(AbsName(self.j), AbsType(self.j))]
 
-        class AbsDef(object):
+        from pyvc.models import AbstractSeq
+
+        class AbsDef(AbstractSeq):
             def __init__(self, n):
                 self.n = n
 
